@@ -86,6 +86,19 @@ def grep_forbidden():
     return hits
 
 
+# which parts of the source (extract.py areas) the model of each property depends on
+ALL_AREAS = {'civil', 'fixed', 'tz', 'posix', 'format'}
+_ZONE = {'civil', 'fixed', 'tz', 'posix'}
+AREAS = {
+    'C04': {'civil'}, 'C05': {'civil'}, 'C17': {'civil'},
+    'C15': {'civil', 'fixed', 'tz'}, 'C16': {'posix'},
+    'C18': {'civil', 'format', 'tz', 'fixed'},
+    'C01': _ZONE, 'C02': _ZONE, 'C03': _ZONE, 'C06': _ZONE, 'C10': _ZONE, 'C11': _ZONE,
+    'C12': _ZONE, 'C13': _ZONE, 'C19': _ZONE, 'C20': _ZONE,
+    'C14': ALL_AREAS, 'C07': ALL_AREAS, 'C08': ALL_AREAS, 'C09': ALL_AREAS,
+}
+
+
 def run_extract():
     rc, out = sh([sys.executable, os.path.join(VERIF, 'gen/extract.py'), '--repo', REPO])
     facts = {}
@@ -382,7 +395,12 @@ class Check:
             rc, out, facts = run_extract()
             self.facts = facts
             if rc != 0:
-                self.broken.append('extractor: ' + out.strip()[-300:])
+                # a lost pattern breaks the tie only for the properties whose model uses that
+                # part of the source (extract.py keeps the model on the pinned values there)
+                lost = [m for m in facts.get('missing', []) if m.split(':', 1)[0] in AREAS.get(self.pid, ALL_AREAS)]
+                self.cov['extractor_lost'] = facts.get('missing', [])
+                if lost or not facts.get('missing'):
+                    self.broken.append('extractor: ' + ('; '.join(lost) or out.strip()[-300:]))
             rc, out = lake_build(modules + ['cctz_model'])
             build_ok = rc == 0
             if not build_ok:
